@@ -29,6 +29,7 @@ func c13Extras(variant int, withError bool) srcFile {
 	var b strings.Builder
 	b.WriteString("{namespace ex}\n/** @param? a\n * @param? x_1 */\n{template .main}\n")
 	b.WriteString("{call .c1 /}{call .c2 /}{call .c3 /}{call .c4 /}{call .c5 /}{call .c6 /}{call .c7 /}\n")
+	b.WriteString("{foreach $k in keys(['k3': 1, 'k1': 2, 'k5': 3, 'k2': 4, 'k4': 5])}{$k}{/foreach}{keys(['z': 1, 'y': 2, 'x': 3, 'w': 4])}\n")
 	b.WriteString("{length(keys(['k1': 1, 'k2': 2, 'k3': 3]))}{round(2.4)}{floor(1.5)}{ceiling(1.5)}{min(1,2)}{max(1,2)}{strContains('ab','a')}{isNonnull($a)}{hasData()}\n")
 	b.WriteString("{$a|escapeHtml}{$a|escapeUri}{$a|escapeJsString}{$a|truncate:5}{$a|changeNewlineToBr}{$a|insertWordBreaks:4}{$a|json}{$a|noAutoescape}\n")
 	b.WriteString("{msg desc=\"collide\"}{$a.x}{$a.y.x}{$x_1} <b>bold</b> <a href=\"u\">link</a> <a href=\"v\">other</a>{/msg}\n")
